@@ -90,6 +90,8 @@ def _template_candidates(tnode):
                 continue
             if '...' in t:
                 per.append([('v',), (), ('k',), ('k', 'v')])
+            elif 'out' in name or 'dest' in name or 'out' in dep[0].lower():
+                per.append([('std::back_inserter(fill)',), ('fill.begin()',), ('std::back_inserter(kv)',), ('std::back_inserter(ks)',)])
             elif 'range' in name or 'range' in dep[0].lower() or name.endswith('s'):
                 per.append([(r,) for r in RANGES])
             else:
@@ -127,7 +129,8 @@ def auto_instantiations(repo, prog, ts, K, V, alt):
         if cm is None:
             continue
         for (t, access, loc) in cm.uninstantiated_templates:
-            if access == 'public' and t not in API_TEMPLATES:
+            if access == 'public':
+                # (also a further overload of a documented range operation that the fixed driver does not call)
                 tnode = next((c for c in cm.node.get('inner', []) if c.get('kind') == 'FunctionTemplateDecl' and c.get('name') == t
                               and c.get('_loc') == loc), None)
                 if tnode is not None:
